@@ -1,11 +1,14 @@
 (* C19 -- Graph algorithms scale polynomially, not with the number of paths.
    Only statements, each closed by [exact] of a lemma from Select_proofs.v.
-   Cost = number of entries into the recursive Go function ([*_paths_cost]: the code as it is,
-   selectAllAncestorsForBuild / GetAncestors / GetDescendants without a visited set) resp.
-   entries + edges inspected ([*_visited_cost]: the same traversals with a visited set). *)
+   The three traversals are modelled as the code has them since the repair of C19-F1..F3:
+   selectAllAncestorsForBuild, GetAncestors and GetDescendants keep a visited map
+   ([select_visited] / [ancestors_visited] / [descendants_visited] = Select.dfs over the
+   dependencies resp. the dependants).  Cost = entries into the recursive function + edges
+   inspected ([*_visited_cost]); [*_visited_calls] = the entries alone, which is what the check
+   counts on the implementation.  [wsum next l] = sum over v in l of (1 + number of successors of v). *)
 From Grog Require Import Str Label Graph Select Select_proofs.
 
-(* with a visited set every traversal is linear *)
+(* every traversal is linear in nodes + edges ... *)
 Theorem C19_select_linear : forall g r, wf_graph g -> select_visited_cost g r <= size g + edges g + 1.
 Proof. exact select_visited_linear. Qed.
 Print Assumptions C19_select_linear.
@@ -18,55 +21,66 @@ Theorem C19_descendants_linear : forall g n, wf_graph g -> descendants_visited_c
 Proof. exact descendants_visited_linear. Qed.
 Print Assumptions C19_descendants_linear.
 
-(* the code as it is: the number of calls is the number of dependency paths + 1 ... *)
-Theorem C19_select_calls_are_paths : forall g r, select_paths_cost g r = S (length (ancestors_paths g r)).
-Proof. exact select_paths_cost_eq. Qed.
-Print Assumptions C19_select_calls_are_paths.
+(* ... hence below the small polynomial the property asks for (the bound that was refuted for the
+   path-enumerating versions: former C19_poly_refuted / _ancestors_ / _descendants_) *)
+Theorem C19_select_poly : forall g r, wf_graph g -> select_visited_cost g r <= 4 * (size g + edges g + 1) ^ 2.
+Proof. exact select_visited_poly. Qed.
+Print Assumptions C19_select_poly.
 
-Theorem C19_ancestors_calls_are_paths : forall g n, ancestors_paths_cost g n = S (length (ancestors_paths g n)).
-Proof. exact ancestors_paths_cost_eq. Qed.
-Print Assumptions C19_ancestors_calls_are_paths.
+Theorem C19_ancestors_poly : forall g n, wf_graph g -> ancestors_visited_cost g n <= 4 * (size g + edges g + 1) ^ 2.
+Proof. exact ancestors_visited_poly. Qed.
+Print Assumptions C19_ancestors_poly.
 
-Theorem C19_descendants_calls_are_paths : forall g n, descendants_paths_cost g n = S (length (descendants_paths g n)).
-Proof. exact descendants_paths_cost_eq. Qed.
-Print Assumptions C19_descendants_calls_are_paths.
+Theorem C19_descendants_poly : forall g n, wf_graph g -> descendants_visited_cost g n <= 4 * (size g + edges g + 1) ^ 2.
+Proof. exact descendants_visited_poly. Qed.
+Print Assumptions C19_descendants_poly.
 
-(* ... which is exponential in the depth of a ladder: 1 + w + w^2 + ... + w^d from any top node
-   of ladder w d, i.e. 2^(d+1) - 1 for width 2 ... *)
-Theorem C19_paths_geometric : forall w d k, k < w -> select_paths_cost (ladder w d) (d * w + k) = geom w d.
-Proof. exact select_cost_ladder. Qed.
-Print Assumptions C19_paths_geometric.
+(* the cost is exactly one unit per node entered plus one per edge leaving an entered node ... *)
+Theorem C19_select_cost_exact : forall g r, topo g ->
+  select_visited_cost g r = wsum (deps g) (fst (select_visited g r)).
+Proof. exact select_visited_cost_exact. Qed.
+Print Assumptions C19_select_cost_exact.
 
-Theorem C19_paths_exponential : forall d, select_paths_cost (ladder 2 d) (2 * d) = 2 ^ (d + 1) - 1.
-Proof. exact select_cost_ladder2. Qed.
-Print Assumptions C19_paths_exponential.
+Theorem C19_ancestors_cost_exact : forall g n, topo g ->
+  ancestors_visited_cost g n = weight (deps g) n + wsum (deps g) (deps_t g n).
+Proof. exact ancestors_visited_cost_exact. Qed.
+Print Assumptions C19_ancestors_cost_exact.
 
-Theorem C19_ancestors_paths_exponential : forall d, ancestors_paths_cost (ladder 2 d) (2 * d) = 2 ^ (d + 1) - 1.
-Proof. exact ancestors_cost_ladder2. Qed.
-Print Assumptions C19_ancestors_paths_exponential.
+Theorem C19_descendants_cost_exact : forall g n, topo g ->
+  descendants_visited_cost g n = weight (dependants g) n + wsum (dependants g) (rdeps_t g n).
+Proof. exact descendants_visited_cost_exact. Qed.
+Print Assumptions C19_descendants_cost_exact.
 
-(* ... while a chain costs its length *)
-Theorem C19_chain_linear : forall n, 0 < n -> select_paths_cost (chain n) (n - 1) = n.
-Proof. exact select_cost_chain. Qed.
-Print Assumptions C19_chain_linear.
+(* ... and the recursive function is entered once per distinct node: 1 + the number of distinct
+   transitive dependencies / dependants (the count the check reads off the implementation) *)
+Theorem C19_select_calls : forall g r, select_visited_calls g r = S (length (deps_t g r)).
+Proof. exact select_visited_calls_eq. Qed.
+Print Assumptions C19_select_calls.
 
-Theorem C19_chain_same_size : size (chain 30) = size (ladder 2 14) /\ select_paths_cost (chain 30) 29 = 30.
-Proof. exact chain_same_size_linear. Qed.
-Print Assumptions C19_chain_same_size.
+Theorem C19_ancestors_calls : forall g n, ancestors_visited_calls g n = S (length (deps_t g n)).
+Proof. exact ancestors_visited_calls_eq. Qed.
+Print Assumptions C19_ancestors_calls.
 
-(* polynomial bound REFUTED for the code as it is (known findings C19-F1..F3): the 30-node
-   ladder of width 2 exceeds 4*(V+E+1)^2 *)
-Theorem C19_poly_refuted :
-  exists g r, topo g /\ select_paths_cost g r > 4 * (size g + edges g + 1) ^ 2.
-Proof. exact select_poly_refuted. Qed.
-Print Assumptions C19_poly_refuted.
+Theorem C19_descendants_calls : forall g n, descendants_visited_calls g n = S (length (rdeps_t g n)).
+Proof. exact descendants_visited_calls_eq. Qed.
+Print Assumptions C19_descendants_calls.
 
-Theorem C19_ancestors_poly_refuted :
-  exists g n, topo g /\ ancestors_paths_cost g n > 4 * (size g + edges g + 1) ^ 2.
-Proof. exact ancestors_poly_refuted. Qed.
-Print Assumptions C19_ancestors_poly_refuted.
+(* the traversal whose cost is bounded is the one the selection (C12) performs: without platform
+   constraints the visited map of selecting the single root r is the one of [select_visited] *)
+Theorem C19_select_visited_is_selection : forall g r,
+  selv_roots g (fun _ => true) [r] [] = Some (fst (select_visited g r)).
+Proof. exact select_visited_is_selection. Qed.
+Print Assumptions C19_select_visited_is_selection.
 
-Theorem C19_descendants_poly_refuted :
-  exists g n, topo g /\ descendants_paths_cost g n > 4 * (size g + edges g + 1) ^ 2.
-Proof. exact descendants_poly_refuted. Qed.
-Print Assumptions C19_descendants_poly_refuted.
+(* the witness of the former refutation: the 30-node ladder of width 2 (32767 calls each before
+   the repair) costs 83 steps; V + E + 1 = 87 *)
+Theorem C19_ladder_2_14 :
+  select_visited_cost (ladder 2 14) 28 = 83 /\ ancestors_visited_cost (ladder 2 14) 28 = 83 /\
+  descendants_visited_cost (ladder 2 14) 0 = 83 /\ size (ladder 2 14) + edges (ladder 2 14) + 1 = 87.
+Proof. exact ladder_2_14_cost. Qed.
+Print Assumptions C19_ladder_2_14.
+
+(* the hypotheses [wf_graph] / [topo] hold on every ladder (and every finite DAG has a topological numbering) *)
+Theorem C19_hypotheses_nonvacuous : forall w d, topo (ladder w d) /\ wf_graph (ladder w d).
+Proof. exact visited_bounds_nonvacuous. Qed.
+Print Assumptions C19_hypotheses_nonvacuous.
